@@ -75,7 +75,9 @@ Drop == /\ "dropOldData" \in Ops
         /\ uf' = UFDrop(uf)
         /\ act' = [op |-> "dropOldData", arg |-> 0]
         /\ ret' = <<>>
-        /\ lo' = IF uf'.data # uf.data THEN Max(lo, uf.data[1].pos + uf.data[1].size) ELSE lo
+        /\ lo' = IF uf'.data # uf.data
+                   THEN LET k == Len(uf.data) - Len(uf'.data) IN Max(lo, uf.data[k].pos + uf.data[k].size)
+                   ELSE lo
 SetEnd == "setFileSize" \in Ops /\ \E n \in Ends :
             /\ uf' = UFSetEnd(uf, n)
             /\ act' = [op |-> "setFileSize", arg |-> n]
@@ -111,9 +113,10 @@ Covered == uf.data # <<>> =>
 (* dropping never discards a byte that has not been read (or skipped) yet *)
 DropOnlyConsumed ==
   [][ act'.op = "dropOldData" /\ uf'.data # uf.data
-        => /\ uf'.data = Tail(uf.data)
-           /\ uf.data[1].pos + uf.data[1].size <= uf.g
-           /\ uf.data[1].pos + uf.data[1].size <= uf.p ]_vars
+        => LET k == Len(uf.data) - Len(uf'.data) IN
+           /\ k > 0 /\ uf'.data = SubSeq(uf.data, k + 1, Len(uf.data))
+           /\ \A i \in 1..k : /\ uf.data[i].pos + uf.data[i].size <= uf.g
+                               /\ uf.data[i].pos + uf.data[i].size <= uf.p ]_vars
 (* read counts and positions *)
 ReadCounts ==
   [][ act'.op = "read" => /\ uf'.gc = uf'.g - uf.g
@@ -141,7 +144,7 @@ Proj == [abort |-> uf.abort,
          data |-> [i \in 1..Len(uf.data) |-> <<uf.data[i].pos, uf.data[i].size>>],
          g |-> uf.g, p |-> uf.p, gc |-> uf.gc, end |-> uf.end, buf |-> uf.buf, C |-> uf.C,
          good |-> UFGood(uf), eof |-> UFEof(uf), tellg |-> UFTellg(uf), tellp |-> UFTellp(uf),
-         ret |-> ret, lo |-> lo]
+         dem |-> uf.dem, ret |-> ret, lo |-> lo]
 \* Proj is injective on View here, so it doubles as the state identity
 EdgeLog == PrintT(ToJson([s |-> Proj, a |-> act', t |-> Proj']))
 InitLog == TLCGet("level") = 1 => PrintT(ToJson([init |-> Proj, a |-> act]))
